@@ -96,6 +96,8 @@ func guarded(f func()) (crash string) {
 
 // runPlain executes the program without debugger.
 func runPlain(src string) (out outcomeT, compileErr string) {
+	installStepHook()
+	atomic.StoreInt64(&runSteps, 0)
 	var so, se bytes.Buffer
 	out.Crash = guarded(func() {
 		i, err := newInterp(&so, &se)
@@ -126,6 +128,8 @@ type itemT struct {
 // runTrace executes the program with instrumented closures (after the same SetBreakpoints requests,
 // which generate closures) and converts the enter/exit records into the tape.
 func runTrace(src string, bps []bpT) (tape []itemT, out outcomeT, problem string) {
+	installStepHook()
+	atomic.StoreInt64(&runSteps, 0)
 	var so, se bytes.Buffer
 	var tr []interp.VerifC19Trace
 	out.Crash = guarded(func() {
@@ -256,12 +260,28 @@ type sessionT struct {
 var stepCount int64
 var hookOnce sync.Once
 
+// runSteps counts the closures executed since the start of the current run (plain, instrumented or debug);
+// a run that exceeds stepBudget is aborted by a Go panic (a generated program that does not terminate must
+// not fill the memory with its tape).
+var runSteps int64
+
+const stepBudget = 3_000_000
+
+func installStepHook() {
+	hookOnce.Do(func() {
+		interp.VerifSetStepHook(func(interp.VerifStepInfo) {
+			atomic.AddInt64(&stepCount, 1)
+			if atomic.AddInt64(&runSteps, 1) > stepBudget {
+				panic("C19 harness: step budget exceeded")
+			}
+		})
+	})
+}
+
 // runDebug executes the program through the Debugger: SetBreakpoints before the start, then one
 // command of cmds per stop (Continue when the list is exhausted).
 func runDebug(src string, bps []bpT, cmds string) (s sessionT) {
-	hookOnce.Do(func() {
-		interp.VerifSetStepHook(func(interp.VerifStepInfo) { atomic.AddInt64(&stepCount, 1) })
-	})
+	installStepHook()
 	var so, se bytes.Buffer
 	var mu sync.Mutex
 	s.Out.Crash = guarded(func() {
@@ -276,6 +296,7 @@ func runDebug(src string, bps []bpT, cmds string) (s sessionT) {
 			return
 		}
 		atomic.StoreInt64(&stepCount, 0)
+		atomic.StoreInt64(&runSteps, 0)
 		evc := make(chan eventT, 1<<16)
 		dbg := i.Debug(context.Background(), prog, func(e *interp.DebugEvent) {
 			ev := eventT{Reason: reasonNames[e.Reason()], Step: atomic.LoadInt64(&stepCount)}
